@@ -332,6 +332,10 @@ pub fn generate_c17(seed: u64) -> W4Scn {
     cfg.path = path;
     cfg.quote_by_modify = r.chance(0.35);
     cfg.warmup = *r.pick(&[1u8, 1, 1, 2, 3]);
+    if len >= 6 && r.chance(0.15) {
+        let from = r.range(1, len as u64 - 3);
+        cfg.halts.push((from, from + 1 + r.below(3)));
+    }
     cfg.extra_step_every = *r.pick(&[0u8, 0, 0, 0, 2, 3, 5]);
     cfg.n_steps = len as u64;
     W4Scn { cfg, agents: vec![spec], initial: vec![], inject: vec![] }
